@@ -49,12 +49,13 @@ type c10result struct {
 	Block   [][2]string
 	Probe   string
 	Extra   string
+	Echo    []string // the block's own name and value texts used again as step commands, expanded under the final environment
 	EnvDump string
 	Err     string
 }
 
 func (r c10result) String() string {
-	return fmt.Sprintf("block=%v probe=%q extra=%q env=%s err=%q", r.Block, r.Probe, r.Extra, r.EnvDump, r.Err)
+	return fmt.Sprintf("block=%v probe=%q extra=%q echo=%q env=%s err=%q", r.Block, r.Probe, r.Extra, r.Echo, r.EnvDump, r.Err)
 }
 
 func c10dump(m map[string]string) string {
@@ -111,6 +112,22 @@ func c10reference(c c10case) (r c10result, collision bool) {
 			env.Set(intk, intv)
 		}
 	}
+	if r.Err == "" {
+		// steps are expanded under the final environment, also when their text already occurred in the block
+		for _, kv := range c.Block {
+			for _, text := range kv {
+				e, err := interpolate.Interpolate(env, text)
+				if err != nil {
+					r.Err = err.Error()
+					break
+				}
+				r.Echo = append(r.Echo, e)
+			}
+		}
+		if r.Err != "" {
+			r.Echo = nil
+		}
+	}
 	if r.Err != "" {
 		// the block is left as it was
 		for _, k := range names {
@@ -135,9 +152,18 @@ func c10real(c c10case) (r c10result, pan string) {
 		items = append(items, ordered.TupleSS{Key: kv[0], Value: kv[1]})
 	}
 	cs := &pipeline.CommandStep{Command: c10probe}
+	steps := pipeline.Steps{cs}
+	var echo []*pipeline.CommandStep
+	for _, kv := range c.Block {
+		for _, text := range kv {
+			e := &pipeline.CommandStep{Command: text}
+			echo = append(echo, e)
+			steps = append(steps, e)
+		}
+	}
 	p := &pipeline.Pipeline{
 		Env:             ordered.MapFromItems(items...),
-		Steps:           pipeline.Steps{cs},
+		Steps:           steps,
 		RemainingFields: map[string]any{"extra": "x-$A-${B}"},
 	}
 	var ienv pipeline.InterpolationEnv
@@ -171,6 +197,9 @@ func c10real(c c10case) (r c10result, pan string) {
 	if err == nil {
 		r.Probe = cs.Command
 		r.Extra, _ = p.RemainingFields["extra"].(string)
+		for _, e := range echo {
+			r.Echo = append(r.Echo, e.Command)
+		}
 	}
 	switch c.Impl {
 	case "own":
@@ -228,7 +257,7 @@ func c10judge(c c10case) (kind, detail string, collision bool) {
 		switch {
 		case fmt.Sprint(got.Block) != fmt.Sprint(want.Block):
 			k = "fold-block"
-		case got.Probe != want.Probe || got.Extra != want.Extra:
+		case got.Probe != want.Probe || got.Extra != want.Extra || fmt.Sprint(got.Echo) != fmt.Sprint(want.Echo):
 			k = "fold-visible-values"
 		case got.EnvDump != want.EnvDump:
 			k = "fold-caller-env"
@@ -331,7 +360,7 @@ func init() {
 		ID: "C10",
 		Rule: "every env block of 1..3 (thorough: ..4, plus long single-name chains) entries over name alphabet {A,B,a,$N,...} and value alphabet {literal,$A,${B},$$A,${A:-d},$UNSET,$RT,...} " +
 			"x 14 caller environments (A, RT, N->A/C, lower-case names) x prefer-runtime flag x case-sensitive/insensitive x environment implementation " +
-			"(harness-owned, the library's internal env, nil) is run through the real Pipeline.Interpolate with a probe command and a top-level extra field and compared " +
+			"(harness-owned, the library's internal env, nil) is run through the real Pipeline.Interpolate with a probe command, a top-level extra field and one command step per block name/value text (the same text again) and compared " +
 			"with a reference left fold (block order and contents, probe strings, caller env afterwards). Non-trivial = more than one entry.",
 		Assumptions: []string{
 			"single-string expansion is delegated to github.com/buildkite/interpolate in both the code and the reference",
